@@ -151,6 +151,12 @@ def c13(r):
     if st.get("stops", 0) < max(1, st.get("scenarios", 0) - 2):
         raise Inconclusive("fullnode driver could prepare only %d of %d stop scenarios" % (st.get("stops", 0), st.get("scenarios", 0)))
     r.tlc_validate("RunTrace", tn, ["C13."])
+    # "the guarantees C01, C02, C06 and C07 hold on every interleaving": the five loops of a full node, with
+    # datastore writes as scheduling points in every other run (a loop that was just signalled runs between any
+    # two durable writes of block application)
+    for args, name in ((["-arg", "retrieve"], "syncer-retrieve"), ([], "syncer-random")):
+        ts = r.drive("syncer", args, name=name)
+        r.tlc_validate("SyncTrace", ts, ["C02.", "C07."])
     t = r.drive("world", race=True, name="world", timeout=3000)
     r.tlc_validate("WorldTrace", t, ["C13."])
     r.tlc_validate("ProducerTrace", t, ["C01."])
